@@ -14,6 +14,7 @@
      ZeroDivisionError, an empty list TypeError (error-branch theorems).
    Non-mutation of the receiver is vacuous in a pure model: harness only. *)
 From Coq Require Import ZArith QArith Qabs List Bool.
+From QV Require Import Gen.QuantityImpl Gen.AllocImpl Proofs.GenAllocEq.
 From QV Require Import Model.Num Model.Rounding Gen.RoundingImpl Model.Quantity Model.Alloc
      Proofs.RoundingQ Proofs.QuantityProofs Proofs.C01Proofs Proofs.C03C04Proofs
      Proofs.C06Proofs.
@@ -293,6 +294,19 @@ Proof.
   vm_compute. intros H. discriminate H.
 Qed.
 Print Assumptions C06_half_bound_strict_refuted.
+
+(* THE MODEL IS THE CODE: Quantity.allocate is re-translated from
+   src/quantity/__init__.py on every run (Gen/AllocImpl.v, fail-closed ast
+   translator translate/alloc.py: the statement skeleton is checked, every
+   condition, error term, update and exit test is translated) and is equal, on
+   all inputs, to the model function the theorems above are about; the
+   subtraction and the sum of the portions go through the translated
+   __sub__ / __add__ *)
+Theorem C06_model_is_translated_code : forall ce dm self ratios fs disperse,
+  allocate_impl ce dm self ratios disperse = allocate ce dm self ratios disperse /\
+  alloc_core_impl ce dm self fs disperse = alloc_core ce dm self fs disperse.
+Proof. intros. split; [apply allocate_impl_eq | apply alloc_core_impl_eq]. Qed.
+Print Assumptions C06_model_is_translated_code.
 
 (* "Quantities of one type" as ratios do NOT always work: for a type without
    reference unit whose units are related by an affine table converter
